@@ -175,7 +175,7 @@ def run(ctx):
                 ctx.sample({"version": version, "log_e_nu": float(loge[i]), "beta_rad": float(beta[i]), "pexit": float(got[i])})
         # ---- rejection of out-of-table energies
         for badE in [6 - 1e-9, 12 + 1e-9, 5.0, 13.0, float("nan"), float(np.nextafter(6.0, 0)), float(np.nextafter(12.0, 13))]:
-            for bb in [bmin, 0.5 * (bmin + bmax), bmax, 0.0]:
+            for bb in [bmin, 0.5 * (bmin + bmax), bmax, 0.0, float(np.nextafter(bmax, 4)), float(np.radians(60.0)), float(np.pi / 2)]:  # above the maximum as well
                 for pos in (0, 3):
                     b = rng.uniform(bmin, bmax, 5)
                     le = rng.uniform(6, 12, 5)
@@ -186,6 +186,16 @@ def run(ctx):
                         ctx.violation("reject", f"table v{version}: energy logE={badE!r} outside the table accepted, P_exit={r[pos]!r}", {"version": version, "loge": repr(badE), "beta": float(bb)})
                     except Exception:
                         pass
+        # ---- input dtypes: whole-number angles (0), half / single precision, lists
+        for nm, b_, e_ in (("integer beta = 0", np.array([0, 0]), np.array([12.0, 8.0])), ("float16 beta", np.array([0.663, 0.698], dtype=np.float16), np.array([8.3, 8.4])), ("float32 beta and energy", np.array([0.05, 0.4], dtype=np.float32), np.array([6.5, 11.75], dtype=np.float32)), ("bool beta", np.array([False, False]), np.array([9.0, 11.9]))):
+            ctx.count("dtype")
+            try:
+                got_ = np.asarray(call.__wrapped__(b_, e_) if hasattr(call, "__wrapped__") else tau.tau_exit_prob(np.asarray(b_), np.asarray(e_)), dtype=np.float64)
+                want_ = np.asarray(tau.tau_exit_prob(np.asarray(b_, dtype=np.float64), np.asarray(e_, dtype=np.float64)))
+                if not (got_.shape == want_.shape and np.all(np.abs(got_ - want_) <= 1e-6 * np.abs(want_)) and np.all((got_ > 0) & (got_ <= 1))):
+                    ctx.violation("dtype", f"table v{version}: tau_exit_prob with {nm} gives {got_.tolist()}; the same numbers as float64 give {want_.tolist()}", {"version": version, "case": nm})
+            except Exception as e:
+                ctx.exception("dtype", f"table v{version}: tau_exit_prob with {nm} raised", e, {"version": version, "case": nm})
         # ---- history independence
         script_rng = ctx.subrng("c05-history", version)
         digests = []
@@ -237,7 +247,7 @@ def run(ctx):
                 if not np.allclose(d, pf, rtol=0, atol=0):
                     ctx.observe(f"v{version}_object_table_differs_from_floored_table", True)
     ctx.exhaustive_subspaces.append("all 25 x 51 nodes of nu2tau_pexit versions 1, 2, 3")
-    for m in ("nodes", "layout", "plots", "interp", "bounded", "clamp", "reject", "history"):
+    for m in ("dtype", "nodes", "layout", "plots", "interp", "bounded", "clamp", "reject", "history"):
         ctx.require(m)
     return ctx.finish(
         rule="per table version: all nodes; random (logE, beta) incl. node-aligned, cell-midpoint, below-min, above-max and one-ulp-off-the-clamp angles, logE exactly 6 and 12; a case is a distinct (version, logE, beta); non-trivial = any point (each exercises the interpolation or a clamp)",
